@@ -57,6 +57,13 @@ void check_C02(Src &s, Ctx &ctx) {
             else if (op.kind != OP_UPDATE && !st.surplus_capable() && !st.aniso_capable()) op.kind = OP_UPDATE;
             if (apply_op(st, op)) { refined = true; if (st.g.getNumNeeded() > 0 && s.chance(3, 4)) apply_op(st, ld); }
         }
+        // one case in four (from the last byte): the values are loaded AGAIN on an unchanged point set - an overwrite with other values, or a merge of a
+        // pending refinement followed by a load of all values: integrate() must follow the values now stored
+        if (exotic < 0 && s.n >= 3 && (s.p[s.n - 1] % 4) == 1) {
+            Op again; again.kind = OP_RELOAD;
+            if (st.g.getNumNeeded() > 0 && (s.p[s.n - 2] % 2)) { Op mg; mg.kind = OP_MERGE; if (apply_op(st, mg)) { ctx.log(st.trace.back()); apply_op(st, ld); ctx.log(st.trace.back()); ctx.label("reloaded:after-merge"); } }
+            else if (apply_op(st, again)) { ctx.log(st.trace.back()); ctx.label("reloaded:overwrite"); }
+        }
     }
     auto &g = st.g; const int d = sp.dims, outs = sp.outs;
     const int N = g.getNumPoints();
